@@ -376,6 +376,23 @@ def run_dateline(case):
         whole = (c['a'] + c['b'] + c['ys'] + c['as']) % 2 == 1
         ua, ut = (1.0, 1.0) if whole else (1000.0, 600.0)
         g, h = dateline_gridder(axes='whole' if whole else 'float')
+        # GridSegment.tla AxisForms "reassigned": a grid object is a record of its axes - every third case uses ONE grid object
+        # per process whose altitude / time axes were assigned anew (after it had already gridded a flight on the other
+        # axes): the cells are those of the axes it has now
+        if (c['ye'] + c['ts'] + c['b']) % 3 == 0:
+            if 'reassigned' not in _g:
+                lat_l, lon_l = np.array(g.grid_latitudes, float), np.array(g.grid_longitudes, float)
+                _g['reassigned'] = gridder_mod().Gridder(lat_l, lon_l, np.arange(3) * 250.0, np.arange(3) * 90.0)
+            g2 = _g['reassigned']
+            other, _ = dateline_gridder(axes='float' if whole else 'whole')
+            g2.grid_altitudes, g2.grid_times = other.grid_altitudes, other.grid_times
+            try:
+                g2.grid_trajectory(np.array([0.1 * h, 0.2 * h]), np.array([np.pi - 0.3 * h, -np.pi + 0.3 * h]), np.array(other.grid_altitudes[1:3], float), np.array(other.grid_times[1:3], float),
+                                   state_variables=(np.array([1.0, 2.0]),), integrated_variables=(np.array([1.0]),))
+            except Exception:
+                pass
+            g2.grid_altitudes, g2.grid_times = g.grid_altitudes, g.grid_times
+            g = g2
         M = 8
 
         def lon_of(x):
